@@ -349,6 +349,8 @@ def judge_clip(ctx, start, end, as_strings):
 def judge_project(ctx, seed, n_ann, task_pattern):
     from soundevent import data
 
+    if task_pattern == "omitted":      # replay of the omitted-argument variant
+        task_pattern = "none"
     spec = {"kind": "project", "seed": seed, "n_ann": n_ann, "tasks": task_pattern}
 
     def kw():
@@ -378,6 +380,10 @@ def judge_project(ctx, seed, n_ann, task_pattern):
 
     want = kw()[1]
     _three_paths(ctx, "AnnotationProject", data.AnnotationProject, lambda: kw()[0], spec, want)
+    if task_pattern == "none":
+        # no tasks at all can also be said by leaving the argument out (the field has a default): same answer
+        ctx.mon("defaulted_field_omitted")
+        _three_paths(ctx, "AnnotationProject", data.AnnotationProject, lambda: {k: v for k, v in kw()[0].items() if k != "tasks"}, dict(spec, tasks="omitted"), want)
 
 
 # ------------------------------------------------------------ AOEF path
